@@ -6,12 +6,12 @@
 From Coq Require Import List NArith Bool Lia ZifyN ZifyNat ZifyBool.
 From Frugal Require Import Bytes Wire Skip Values Desc Spec Decode Checks.
 From Frugal.gen Require Import Params.
-From Frugal.proofs Require Import BytesWire EncodeSpec.
+From Frugal.proofs Require Import BytesWire EncodeSpec ParamsSplit.
 Import ListNotations.
 Open Scope N_scope.
 
 (* ------------------------------------------------------------------ *)
-(* the generated constants, through params_ok only                      *)
+(* the generated constants, through dec_params_ok only                      *)
 (* ------------------------------------------------------------------ *)
 
 Ltac andb_all :=
@@ -19,13 +19,13 @@ Ltac andb_all :=
          | H : (_ && _) = true |- _ => apply andb_true_iff in H; destruct H
          end.
 
-Lemma params_parts : params_ok = true ->
+Lemma params_parts : dec_params_ok = true ->
   codes_ok = true /\ fixed_ok = true /\ minwire_ok = true.
 Proof.
-  unfold params_ok. intros H. andb_all. repeat split; assumption.
+  intros H. exact (conj (dec_codes H) (conj (dec_fixed H) (dec_minwire H))).
 Qed.
 
-Lemma hdr_eqs : params_ok = true ->
+Lemma hdr_eqs : dec_params_ok = true ->
   fieldHeaderLen = 3 /\ mapHeaderLen = 6 /\ listHeaderLen = 5 /\ strHeaderLen = 4.
 Proof.
   intros HP. destruct (params_parts HP) as [H _]. unfold codes_ok in H. andb_all.
@@ -42,10 +42,10 @@ Fixpoint cwt (t : ty) : N :=
   | TStruct _ => cSTRUCT | TPtr t' => cwt t'
   end.
 
-Lemma wt_cwt : params_ok = true -> forall t, wt t = cwt t.
+Lemma wt_cwt : dec_params_ok = true -> forall t, wt t = cwt t.
 Proof.
   intros HP.
-  destruct (codes_eqs HP) as (E0 & E1 & E2 & E3 & E4 & E5 & E6 & E7 & E8 & E9 & E10 & E11).
+  destruct (codes_eqs (dec_enc HP)) as (E0 & E1 & E2 & E3 & E4 & E5 & E6 & E7 & E8 & E9 & E10 & E11).
   induction t as [| | | | | | | | |b e IHe|k IHk v IHv|sid|t' IH]; cbn [wt cwt];
     try (destruct b); try exact IH; assumption.
 Qed.
@@ -56,7 +56,7 @@ Proof.
     try (destruct b); try exact IH; unfold wire_codes; in_list.
 Qed.
 
-Lemma min_wire_ok : params_ok = true -> forall t,
+Lemma min_wire_ok : dec_params_ok = true -> forall t,
   0 < min_wire (wt t) /\ min_wire (wt t) <= min_size (wt t).
 Proof.
   intros HP t. destruct (params_parts HP) as (_ & _ & H). unfold minwire_ok in H.
@@ -79,7 +79,7 @@ Proof. reflexivity. Qed.
 Lemma fixed_size_struct : forall sid, fixed_size (TStruct sid) = fixed_size (TStruct 0).
 Proof. reflexivity. Qed.
 
-Lemma fixed_size_nonptr : params_ok = true -> forall t, is_ptr t = false ->
+Lemma fixed_size_nonptr : dec_params_ok = true -> forall t, is_ptr t = false ->
   fixed_size t = wire_width t.
 Proof.
   intros HP t Hp. destruct (params_parts HP) as (_ & H & _).
@@ -91,7 +91,7 @@ Proof.
 Qed.
 
 (* tENUM is none of the wire codes *)
-Lemma kind_enum : params_ok = true -> forall t, is_scalar_ty t = true ->
+Lemma kind_enum : dec_params_ok = true -> forall t, is_scalar_ty t = true ->
   (kind t =? tENUM) = match t with TEnum => true | _ => false end.
 Proof.
   intros HP t Ht. destruct (params_parts HP) as (H & _ & _). unfold codes_ok in H.
@@ -100,7 +100,7 @@ Proof.
     apply negb_true_iff in H; unfold memN in H; cbn [existsb] in H;
     repeat (apply orb_false_iff in H; let H' := fresh "N" in destruct H as [H' H])
   end.
-  destruct (codes_eqs HP) as (E0 & E1 & E2 & E3 & E4 & E5 & E6 & E7 & E8 & E9 & E10 & E11).
+  destruct (codes_eqs (dec_enc HP)) as (E0 & E1 & E2 & E3 & E4 & E5 & E6 & E7 & E8 & E9 & E10 & E11).
   destruct t; try discriminate Ht; cbn [kind wt];
     rewrite ?E1, ?E2, ?E3, ?E4, ?E5, ?E6, ?N.eqb_refl; try reflexivity;
     rewrite N.eqb_sym; assumption.
@@ -417,7 +417,7 @@ Lemma width_pos_scalar : forall t, is_ptr t = false -> 0 < wire_width t -> is_sc
 Proof. intros t Hp H. destruct t; try reflexivity; cbn [wire_width] in H; try lia. Qed.
 
 (* a type of positive fixed size is a scalar or a pointer to one *)
-Lemma fixed_pos_scalar : params_ok = true -> forall env t, ty_ok env t = true ->
+Lemma fixed_pos_scalar : dec_params_ok = true -> forall env t, ty_ok env t = true ->
   (0 <? fixed_size t) = true -> is_scalar_ty (deref_ty t) = true.
 Proof.
   intros HP env t Hok Hf. destruct (ty_ok_deref env t Hok) as [_ Hp].
@@ -460,7 +460,7 @@ Proof.
   rewrite len_app, be_put_len, Hf in Es. lia.
 Qed.
 
-Lemma fixed_val_plain : params_ok = true -> forall t k x,
+Lemma fixed_val_plain : dec_params_ok = true -> forall t k x,
   is_scalar_ty t = true -> t <> TEnum -> x < 2 ^ (8 * N.of_nat k) ->
   fixed_val (kind t) (be_put k x) = VS x.
 Proof.
@@ -469,7 +469,7 @@ Proof.
   destruct t; try reflexivity. exfalso. apply Hne. reflexivity.
 Qed.
 
-Lemma fixed_val_enum : params_ok = true -> forall k x,
+Lemma fixed_val_enum : dec_params_ok = true -> forall k x,
   x < 2 ^ (8 * N.of_nat k) ->
   fixed_val (kind TEnum) (be_put k x) = VS (sext32 x).
 Proof.
@@ -477,7 +477,7 @@ Proof.
   rewrite be_get_put_small by exact Hx. reflexivity.
 Qed.
 
-Lemma scalar_read : params_ok = true -> forall t w rest,
+Lemma scalar_read : dec_params_ok = true -> forall t w rest,
   is_scalar_ty t = true -> code_of w = wt t -> wf w = true ->
   exists v, scalar_of t w = Some v
             /\ is_scalar_w w = true
@@ -522,7 +522,7 @@ Proof.
 Qed.
 
 (* a slot of fixed-size kind (element, key, value, field): both decoders *)
-Lemma fixed_slot : params_ok = true -> forall env t w rest prior,
+Lemma fixed_slot : dec_params_ok = true -> forall env t w rest prior,
   ty_ok env t = true -> (0 <? fixed_size t) = true -> code_of w = wt t -> wf w = true ->
   exists v, absorb env t w prior = AOk (wrap_ptr t v)
             /\ read_fixed_unchecked (deref_ty t) (put w ++ rest) = DOk v rest
@@ -543,7 +543,7 @@ Qed.
 Lemma short_false : forall bs n, n <= len bs -> short bs n = false.
 Proof. intros bs n H. rewrite short_spec. apply N.ltb_ge. exact H. Qed.
 
-Lemma dec_string_put : params_ok = true -> forall s rest, wf (WStr s) = true ->
+Lemma dec_string_put : dec_params_ok = true -> forall s rest, wf (WStr s) = true ->
   dec_string (put (WStr s) ++ rest) = DOk (VB false s) rest.
 Proof.
   intros HP s rest Hwf. destruct (hdr_eqs HP) as (_ & _ & _ & Hh).
@@ -613,7 +613,7 @@ Qed.
 (* count checks                                                         *)
 (* ------------------------------------------------------------------ *)
 
-Lemma min_wire_put : params_ok = true -> forall t w, code_of w = wt t -> min_wire (wt t) <= len (put w).
+Lemma min_wire_put : dec_params_ok = true -> forall t w, code_of w = wt t -> min_wire (wt t) <= len (put w).
 Proof.
   intros HP t w Hc. destruct (min_wire_ok HP t) as [_ H].
   pose proof (min_size_put' w) as H1. rewrite Hc in H1. lia.
@@ -628,7 +628,7 @@ Section Fixed.
   Variable env : senv.
   Variable fuel : nat.
   Variable pool : list N.
-  Hypothesis HP : params_ok = true.
+  Hypothesis HP : dec_params_ok = true.
   Hypothesis HE : env_ok env = true.
 
   Definition refines_at (w : tv) : Prop :=
@@ -905,7 +905,7 @@ Section Fixed.
                       cur (seen ++ x) unk) rest.
   Proof.
     intros d sd Hsd.
-    destruct (codes_eqs HP) as (E0 & _).
+    destruct (codes_eqs (dec_enc HP)) as (E0 & _).
     induction fs as [|[id w] fs IH]; intros HF Hwf Hn Hs fl rest cur seen unk x Hl Hfl.
     - destruct fl as [|fl]; [inversion Hfl|].
       cbn [put_fields cat_map app]. rewrite dec_fields_S, E0, N.eqb_refl. reflexivity.
@@ -1112,7 +1112,7 @@ Section Fixed.
 End Fixed.
 
 (* value level; t is the slot type (possibly TPtr), w the wire value found for it *)
-Theorem decode_type_refines : forall env fuel pool, params_ok = true -> env_ok env = true ->
+Theorem decode_type_refines : forall env fuel pool, dec_params_ok = true -> env_ok env = true ->
   forall w t d rest prior,
     wf w = true -> code_of w = wt t -> ty_ok env t = true -> fixed_size (deref_ty t) = 0 ->
     (need env t w <= d)%nat -> (skipped_depth env t w <= 63)%nat ->
@@ -1128,7 +1128,7 @@ Proof.
 Qed.
 
 (* top level: DecodeObject *)
-Theorem decode_refines : forall env pool sid fs rest dst, params_ok = true -> env_ok env = true ->
+Theorem decode_refines : forall env pool sid fs rest dst, dec_params_ok = true -> env_ok env = true ->
   wf (WStruct fs []) = true -> lookup_sd env sid <> None ->
   (exists fs0 h0, dst = VT fs0 h0) ->
   (need env (TStruct sid) (WStruct fs []) <= S (N.to_nat maxDepthLimit))%nat ->
